@@ -594,6 +594,17 @@ where
     let nested = parent_item >= 0;
     if nested {
         cfg.deliver = None;
+    } else {
+        let consumed = sim::with(|s| std::mem::replace(&mut s.deliver_consumed, true));
+        if consumed {
+            // everything the earlier top-level iterator did happened before this one (join)
+            sim::with(|s| s.release_all());
+            if cfg.deliver.is_some() {
+                // positions of a later pass no longer name the items of the first one
+                sim::with(|s| s.monitor_on = false);
+            }
+            cfg.deliver = None;
+        }
     }
     let all = pi.take_bases();
     let total = all.len();
